@@ -28,7 +28,10 @@ for m in sorted(glob.glob(os.path.join(HERE, "seeded", "*", "meta.json"))):
     needs = (d.get("needs_to_manifest") or "").replace("\n", " ").replace("|", "/")
     if len(needs) > 160:
         needs = needs[:157] + "..."
-    rows.append((pid, name, needs, OVR.get(name, verdict(first)), verdict(last), ", ".join(sorted(set(sigs)))[:200]))
+    caught_as = ", ".join(sorted(set(sigs)))[:200]
+    if d.get("caught_by_other_check"):
+        caught_as = (caught_as + " " if caught_as else "") + f"[also reported by the {d['caught_by_other_check']} check]"
+    rows.append((pid, name, needs, OVR.get(name, verdict(first)), verdict(last), caught_as))
 
 print("| property | seeded change | needs to manifest | first run | after strengthening | caught as |")
 print("|---|---|---|---|---|---|")
